@@ -386,8 +386,22 @@ pub fn run(p: &Params, prefix: &str) -> Report {
     let mut rep = Report::new(prefix);
     if let Some(r) = &p.replay {
         let seed: u64 = r["replay"]["scenario_seed"].as_str().unwrap().parse().unwrap();
-        scenario(seed, &mut rep, prefix);
+        if r["replay"]["half"] == "service" {
+            let mut urng = Rng::new(p.shard_seed(0x909));
+            let uni = super::c09r2::universe(&mut urng, 60);
+            super::c09r2::scenario(seed, &uni, &mut rep, prefix);
+        } else {
+            scenario(seed, &mut rep, prefix);
+        }
         return rep;
+    }
+    // R2 half: lookups on a real service with scripted handler
+    let mut urng = Rng::new(p.shard_seed(0x909));
+    let uni = super::c09r2::universe(&mut urng, 60);
+    let m = p.budget(800, 40_000);
+    for i in 0..m {
+        let seed = p.shard_seed(0x92_0000 + i);
+        crate::util::guarded(&mut rep, seed, |rep| super::c09r2::scenario(seed, &uni, rep, prefix));
     }
     let n = p.budget(60_000, 4_000_000);
     for i in 0..n {
